@@ -215,6 +215,28 @@ theorem gml_reader_consistent_directed (u : Bool) (ty : GType) (hty : ty = .digr
   intro e he
   exact hall (P.rank e.1, P.rank e.2) ((h4 _ _).2 ⟨e.1, e.2, he, rfl, rfl⟩)
 
+/-- type `bipartite`: an accepted text gives every node a side (`bipartite` ∈ `0 1 "0" "1"`); the two sides are
+numbered separately in the order of the file (`rank` in `Parsed.side`: NO sorting of the ids); every edge of the
+text joins the two sides — whichever of `source` / `target` is on the left — and the object has exactly those edges -/
+theorem gml_reader_consistent_bipartite (u : Bool) (text : Str) (G : AnyG) (nm : Field)
+    (h : readGml u .bipartite text = .ok (G, nm)) :
+    ∃ P g, parseGml u text = .ok P ∧ P.WF ∧ G = .bip g ∧ BipG.Inv g ∧
+      g.l = (P.side false).length ∧ g.r = (P.side true).length ∧
+      (∀ c ∈ P.colours.map colourBool, c ≠ none) ∧
+      (∀ e ∈ P.tedges, (e.1 ∈ P.side false ∧ e.2 ∈ P.side true) ∨ (e.2 ∈ P.side false ∧ e.1 ∈ P.side true)) ∧
+      ∀ x y, (x, y) ∈ g.edgeset ↔ ∃ i j, ((i, j) ∈ P.tedges ∨ (j, i) ∈ P.tedges) ∧ i ∈ P.side false ∧ j ∈ P.side true ∧
+        x = rank (P.side false) i ∧ y = rank (P.side true) j := by
+  obtain ⟨P, hp, hn, _, _⟩ := readGml_ok_inv h
+  have hW := parseGml_wf hp
+  obtain ⟨g, h1, h2, h3, h4, h5, h6, h7⟩ := normalize_bip_edges hW hn
+  exact ⟨P, g, hp, hW, h1, h2, h3, h4, h5, h6, h7⟩
+
+example : ∃ G nm, readGml false .bipartite
+    "graph [ node [ id 9 bipartite 1 ] node [ id 2 bipartite 0 ] edge [ source 9 target 2 ] ]".toList = .ok (G, nm) :=
+  ⟨_, _, rfl⟩
+example : readGml false .bipartite
+    "graph [ node [ id 9 bipartite 0 ] node [ id 2 bipartite 0 ] edge [ source 9 target 2 ] ]".toList = .err .valueError := by rfl
+
 /-- T-C14.3 for gml, the short form: a file declared acyclic is accepted only with increasing edges -/
 theorem gml_dag_only_increasing (u : Bool) (text : Str) (G : AnyG) (nm : Field)
     (h : readGml u .dag text = .ok (G, nm)) :
